@@ -299,6 +299,50 @@ def initFull (z zpow : α) (len : Nat) (s : Nat → α) : α :=
   let st := (List.range (len - 2)).foldl (stepFull z iz s) (s 0 + zpow * s (len - 1), z, zpow * (zpow * iz))
   st.1 / (((1 : Nat) : α) - st.2.1 * st.2.1)
 
+/-! ### `spline_filter1d` / `spline_filter` on arrays
+
+The array loop of the prefilter, polymorphic: the driver runs it at `Float` with the code's poles, weight and
+initialisation rule; `Proofs/C18Array.lean` proves over any field that it computes, position by position, the separable
+prefilter `prefilterNd` the interpolation theorems speak about. -/
+
+/-- the initial value `spline_filter1d` gives the causal pass of pole `p` on a line of length `len`: the sum cut after
+    `cut p` terms when that is below the length, otherwise the closed form over the mirrored line
+    (`pw p n` stands for `pow(p, n)`) -/
+def iniCode (cut : α → Int) (pw : α → Nat → α) (p : α) (len : Nat) (s : Nat → α) : α :=
+  if cut p < (len : Int) then initTrunc p (cut p).toNat s else initFull p (pw p (len - 1)) len s
+
+/-- one line of `spline_filter1d` for the weight `w`, the poles `ps` and the initialisation rule `ini`: a line of at
+    most one sample is returned as it is; otherwise `line *= w` and, pole after pole, `line[0] = ini p len line`, the
+    causal and the anti-causal pass (`onePole`; it reads `line[0]` only through the initial value) -/
+def filterLineP (w : α) (ps : List α) (ini : α → Nat → (Nat → α) → α) (line0 : Array α) : Array α :=
+  let len := line0.size
+  if len ≤ 1 then line0
+  else ps.foldl (fun line p =>
+      (Array.range len).map
+        (onePole p (ini p len (fun k => line.getD k ((0 : Nat) : α))) len (fun k => line.getD k ((0 : Nat) : α))))
+    (line0.map (· * w))
+
+/-- the `len` samples of the line through `p` along `axis` -/
+def lineOf (im : Img α) (axis : Nat) (p : List Int) (len : Nat) : Array α :=
+  (Array.range len).map fun k => im.getD (p.set axis ((k : Nat) : Int)) ((0 : Nat) : α)
+
+/-- `spline_filter1d` along `axis` with the line filter `F`: every line along the axis is replaced by `F line`
+    (each line is filtered once — stored at the flat index of its first sample — and every sample is read from its
+    line; the lines are disjoint, so this is what the in-place loop of the C++ code leaves behind).
+    An axis of length ≤ 1 (or beyond the rank) leaves the array as it is. -/
+def filterAxisP (F : Array α → Array α) (im : Img α) (axis : Nat) : Img α :=
+  let len := im.shape.getD axis 1
+  if len ≤ 1 then im
+  else
+    let lines : Array (Array α) := ((allPos im.shape).map fun p =>
+      if p.getD axis 0 = 0 then F (lineOf im axis p len) else #[]).toArray
+    Img.tabulate im.shape fun p =>
+      (lines.getD (ravelI im.shape (p.set axis 0)) #[]).getD (p.getD axis 0).toNat ((0 : Nat) : α)
+
+/-- `interpolate.spline_filter`: `for axis in range(array.ndim): spline_filter1d(output, order, axis)` -/
+def splineFilterP (F : Array α → Array α) (im : Img α) : Img α :=
+  (List.range im.shape.length).foldl (filterAxisP F) im
+
 end Poly
 
 /-! ## `Float` instance and the prefilter -/
@@ -325,25 +369,11 @@ def poleWeight (ps : List Float) : Float :=
 /-- number of terms after which the causal initialisation sum is cut (`log_tolerance = log(1e-15)`) -/
 def cutLen (p : Float) : Int := (Float.ceil (Float.log 1e-15 / Float.log (Float.abs p))).toInt64.toInt
 
-/-- one line of `spline_filter1d` (`len ≥ 2`) -/
-def filterLine (order : Nat) (line0 : Array Float) : Array Float := Id.run do
-  let len := line0.size
-  if len ≤ 1 then return line0
-  let ps := poles order
-  let w := poleWeight ps
-  let mut line := line0.map (· * w)
-  for p in ps do
-    let mx := cutLen p
-    -- the initial value of the causal pass (the polymorphic `initTrunc` / `initFull`)
-    let cur0 := line
-    if mx < (len : Int) then
-      line := line.set! 0 (initTrunc p mx.toNat (fun k => cur0[k]!))
-    else
-      line := line.set! 0 (initFull p (Float.pow p (Float.ofNat (len - 1))) len (fun k => cur0[k]!))
-    -- the two recursions (the polymorphic `onePole`, about which `Properties/C18.lean` speaks)
-    let cur := line
-    line := (Array.range len).map (onePole p cur[0]! len (fun k => cur[k]!))
-  return line
+/-- one line of `spline_filter1d`: `filterLineP` with the code's poles, their weight, and the code's initialisation
+    rule (cut at `cutLen`, `pow` for the closed form) -/
+def filterLine (order : Nat) (line0 : Array Float) : Array Float :=
+  filterLineP (poleWeight (poles order)) (poles order)
+    (iniCode cutLen (fun p n => Float.pow p (Float.ofNat n))) line0
 
 /-- was the initialisation sum cut short on a line of this length? (then the coefficients reproduce
     the samples to about `1e-15` relative instead of to rounding) -/
@@ -351,21 +381,11 @@ def truncated (order len : Nat) : Bool :=
   len > 1 && (poles order).any fun p => cutLen p < (len : Int)
 
 /-- `spline_filter1d` along `axis` -/
-def filterAxis (order : Nat) (im : Img Float) (axis : Nat) : Img Float := Id.run do
-  let len := im.shape.getD axis 1
-  if len ≤ 1 then return im
-  let stride := shapeSize (im.shape.drop (axis + 1))
-  let mut data := im.data
-  for i in [0:im.size] do
-    if (i / stride) % len = 0 then
-      let line := filterLine order ((Array.range len).map fun k => data[i + k * stride]!)
-      for k in [0:len] do
-        data := data.set! (i + k * stride) line[k]!
-  return { im with data := data }
+def filterAxis (order : Nat) (im : Img Float) (axis : Nat) : Img Float := filterAxisP (filterLine order) im axis
 
 /-- `interpolate.spline_filter` -/
 def splineFilter (order : Nat) (im : Img Float) : Img Float :=
-  if order ≤ 1 then im else (List.range im.shape.length).foldl (filterAxis order) im
+  if order ≤ 1 then im else splineFilterP (filterLine order) im
 
 /-! ## driver -/
 
